@@ -1,6 +1,7 @@
 /-
 C12 driver: replays one history (limit, two readers, instruments, views, ops) on the model and evaluates the Spec
-reference (`Spec.refPoints`, `Spec.limitOK`, `Spec.conserved`, `Spec.perKeyOK`, `Spec.keysOK`) on the observed collections.
+reference (`Spec.refPoints`, `Spec.refPointsDelta`, `Spec.limitOK`, `Spec.conserved`, `Spec.perKeyOK`,
+`Spec.bucketsConserved`, `Spec.psumDeltaOK`, `Spec.psumDeltaConserved`, `Spec.keysOK`) on the observed collections.
   hist <gen> <limit> <tps> <insts> <views> | m j set x | o j set x | k | c r … => <r>@<metric>;<metric> …
 -/
 import Otel.Base.Wire
@@ -159,11 +160,11 @@ def parseORec (s : String) : Option (Nat × List OMetric) :=
 
 /-! ### the reference (Spec) walk over a history -/
 
-/-- per reader, per stream: arrivals of the current admission window, and the previous cycle's reference points
+/-- per reader, per stream: arrivals of the current admission window, and the window of the preceding collection
 (only read for precomputed sums with delta temporality) -/
 structure RefSt where
   win : List (List (List (Attr × Int)))
-  prev : List (List (List (Attr × PV)))
+  prev : List (List (List (Attr × Int)))
   cur : List (Nat × CSet × Int) := []
   /-- (reader, expected metrics, all named predicates hold of the observed record) per collection -/
   out : List (Nat × List OMetric) := []
@@ -174,20 +175,14 @@ def feed (p : Pipe) (j : Nat) (a : CSet) (x : Int) (win : List (List (Attr × In
     | some s => w.modify idx (· ++ [(code (applyFilter s.filter a), x)])
     | none => w) win
 
-def pvSub (a : PV) (b : Option PV) : PV :=
-  match a, b with
-  | .num x, some (.num y) => .num (x - y)
-  | a, _ => a
-
-/-- one collection of one stream: (expected points, window afterwards, prev afterwards) -/
-def refCollect (L : Nat) (tp : Temporality) (g : Agg) (win : List (Attr × Int)) (prev : List (Attr × PV)) :
-    List (Attr × PV) × List (Attr × Int) × List (Attr × PV) :=
-  let pts := Spec.refPoints g L win
+/-- one collection of one stream: (expected points, window afterwards, preceding window afterwards) -/
+def refCollect (L : Nat) (tp : Temporality) (g : Agg) (win : List (Attr × Int)) (prev : List (Attr × Int)) :
+    List (Attr × PV) × List (Attr × Int) × List (Attr × Int) :=
   match g with
   | .psum _ =>
-    (if tp == .delta then pts.map fun p => (p.1, pvSub p.2 (prev.lookup p.1)) else pts, [], pts)
-  | .plv _ => (pts, [], [])
-  | _ => (pts, if tp == .delta then [] else win, [])
+    (if tp == .delta then Spec.refPointsDelta L prev win else Spec.refPoints g L win, [], win)
+  | .plv _ => (Spec.refPoints g L win, [], [])
+  | _ => (Spec.refPoints g L win, if tp == .delta then [] else win, [])
 
 def refStep (L : Nat) (insts : List Inst) (pipes : List Pipe) (st : RefSt) : Op → RefSt
   | .meas j a x =>
@@ -222,8 +217,8 @@ def refStep (L : Nat) (insts : List Inst) (pipes : List Pipe) (st : RefSt) : Op 
 
 /-- the windows (before the collection) of every stream at every collection, for the named predicates -/
 def windowsAt (L : Nat) (insts : List Inst) (pipes : List Pipe) (ops : List Op) (st0 : RefSt) :
-    List (Nat × List (Agg × Temporality × Name × String × List (Attr × Int))) :=
-  (ops.foldl (fun (acc : RefSt × List (Nat × List (Agg × Temporality × Name × String × List (Attr × Int)))) op =>
+    List (Nat × List (Agg × Temporality × Name × String × List (Attr × Int) × List (Attr × Int))) :=
+  (ops.foldl (fun (acc : RefSt × List (Nat × List (Agg × Temporality × Name × String × List (Attr × Int) × List (Attr × Int)))) op =>
     let st := acc.1
     match op with
     | .col r =>
@@ -238,7 +233,8 @@ def windowsAt (L : Nat) (insts : List Inst) (pipes : List Pipe) (ops : List Op) 
           match p.streams[idx]? with
           | some s =>
             match s.agg with
-            | some g => some (g, p.tp, s.name, renderTy g.dt p.tp s.float, w.getD idx [])
+            | some g => some (g, p.tp, s.name, renderTy g.dt p.tp s.float, w.getD idx [],
+                              (st.prev.getD r []).getD idx [])
             | none => none
           | none => none
         (refStep L insts pipes st op, acc.2 ++ [(r, ws)])
@@ -246,14 +242,18 @@ def windowsAt (L : Nat) (insts : List Inst) (pipes : List Pipe) (ops : List Op) 
 
 /-- named predicates on one observed record: every observed metric is matched (name, type, position among the
 metrics of that name and type) with a stream window -/
-def namedOK (L : Nat) (ws : List (Agg × Temporality × Name × String × List (Attr × Int))) (obs : List OMetric) : Bool :=
+def namedOK (L : Nat) (ws : List (Agg × Temporality × Name × String × List (Attr × Int) × List (Attr × Int)))
+    (obs : List OMetric) : Bool :=
   obs.all fun m =>
     Spec.limitOK L m.pts &&
     match ws.filter (fun w => w.2.2.1 == m.name && w.2.2.2.1 == m.ty) with
     | [w] =>
       let isPsumDelta := (match w.1 with | .psum _ => true | _ => false) && w.2.1 == .delta
-      Spec.keysOK L w.2.2.2.2 m.pts &&
-      (isPsumDelta || (Spec.conserved w.1 w.2.2.2.2 m.pts && Spec.perKeyOK w.1 L w.2.2.2.2 m.pts))
+      let win := w.2.2.2.2.1
+      let pw := w.2.2.2.2.2
+      Spec.keysOK L win m.pts &&
+      (if isPsumDelta then Spec.psumDeltaOK L pw win m.pts && Spec.psumDeltaConserved L pw win m.pts
+       else Spec.conserved w.1 win m.pts && Spec.perKeyOK w.1 L win m.pts && Spec.bucketsConserved w.1 win m.pts)
     | _ => true   -- several streams share name and type: judged by the reference equality only
 
 def tagIf (b : Bool) (t : String) : List String := if b then [t] else []
